@@ -1,20 +1,70 @@
 """C15 — Jacobian equals the geometric one."""
 from props import _gencommon as G
+import common as C
 ID = "C15"
-COQ_TARGETS = ["Gen/Forward.vo", "Properties/C15.vo"]
-THEOREMS = ["C15_position_column", "C15_position_column_base", "C15_rotation_column"]
+COQ_TARGETS = ["Gen/Forward.vo", "Proofs/JacobianFD.vo", "Properties/C15.vo"]
+THEOREMS = ["C15_position_column", "C15_position_column_base", "C15_rotation_column", "C15_fd_bound"]
 LEVEL_TEXT = ("Coq theorems (Coquelicot derivatives) for every parameter set, sign/offset convention, joint vector, joint index, coordinate and "
               "tool offset, about forward kinematics regenerated from the source: the derivative of the tool point w.r.t. joint i is "
               "sign_i * (axis_i x (point - origin_i)) with axis/origin taken from the per-link poses, also behind any base transform; perturbing "
-              "joint i by e rotates the flange about that axis by sign_i*e exactly, so the rotation-log column has no truncation error")
-LEVEL_NOTE = (G.NOTE + "; the finite-difference code of compute_jacobian, nalgebra's scaled_axis / try_inverse / SVD are not modelled: the "
-              "harness compares Jacobian::new column by column with the geometric Jacobian of the independent link chain within "
+              "joint i by e rotates the flange about that axis by sign_i*e exactly, so the rotation-log column has no truncation error; "
+              "the forward-difference quotient of any coordinate of the tool point differs from the geometric column by at most |e| times "
+              "the lever arm for every step |e| <= 1 (C15_fd_bound)")
+LEVEL_NOTE = (G.NOTE + "; compute_jacobian itself is tied by certified spot checks: Coq proves with Interval that every entry of the matrix the "
+              "implementation built is within eps * reach of the geometric column of the generated FK; nalgebra's scaled_axis / try_inverse / "
+              "SVD are not modelled: the harness also compares Jacobian::new column by column with the geometric Jacobian of the independent link chain within "
               "5*eps*reach, and checks J*v = x (cond < 1e4), torques = J^T F and the agreement of the isometry/vector entry points")
 TECHNIQUE = "Coq proof (Coquelicot auto_derive + ring, matrix algebra) about generated FK; harness comparison of the finite-difference Jacobian"
 RULE = ("random robots (signs, offsets, b != 0) x joint vectors x eps in {1e-7,1e-6,3e-6,1e-5} x {bare, tool, base, base+tool} x random twists/"
         "wrenches; non-trivial = robots with a wrapper or a sign/offset; distinct = distinct cases")
 EXPLANATION = LEVEL_NOTE
-ASSUMPTIONS = ["forward-difference truncation error bound (eps * reach / 2) is checked numerically, not proved"]
-PARTIAL = ["finite-difference error bound, velocities (inverse / pseudo-inverse) and torques (transpose): oracle only"]
+ASSUMPTIONS = ["nalgebra's scaled_axis of an axis-angle rotation is angle * axis (rotation rows)"]
+PARTIAL = ["velocities (inverse / pseudo-inverse), torques (transpose) and the isometry-to-vector conversion: oracle only"]
 TRUSTED_EXTRA = ["Coquelicot (real analysis library; its axioms are those of the Reals standard library)"]
-correspondence, search = G.make("C15", sample_keys=("case", "eps", "wrappers", "diff", "tol", "cond", "direct"))
+_corr, search = G.make("C15", sample_keys=("case", "eps", "wrappers", "diff", "tol", "cond", "direct"))
+
+
+def spot_file(r):
+    """Coq certifies (Interval) that every entry of the Jacobian the implementation built is within eps * (lever arm bound) of the
+    geometric column of the GENERATED forward kinematics -- the column C15_position_column / C15_rotation_column / C15_fd_bound are about"""
+    import math
+    P = r["robot"]["params"]
+    eps = C.f64(r["eps"])
+    src = C.SPOT_PRELUDE + "From VF Require Import Base.Num Gen.Forward Proofs.ForwardP Proofs.JacobianP.\n"
+    src += "Definition p0 := " + C.params_lit(P) + ".\n"
+    src += "Definition j0 := mkJ6 " + " ".join(C.rlit(C.frac(h)) for h in r["q"]) + ".\n"
+    src += "Definition t0 := mkV3 0 0 0.\n"
+    src += (f"Ltac spot := cbv [geo_col tip sgn local_axis vcoord ez ey iapp mapp vcross vsub vscale vadd fwd chain iid I3 p0 j0 t0 {C.PROJ}]; "
+            "a2; interval with (i_prec 90).\n")
+    g = [C.f64(h) for h in P["geom"]]
+    reach = sum(abs(x) for x in g) + 1.0
+    tol_p = C.rlit(C.Fraction(int(math.ceil((eps * reach + 1e-8 + 4e-10 / eps) * 1e9)), 10 ** 9))
+    tol_r = C.rlit(C.Fraction(int(math.ceil((1e-8 + 4e-10 / eps) * 1e9)), 10 ** 9))
+    n = 0
+    for i in range(6):
+        for k in range(3):
+            v = C.rlit(C.frac(r["jac"][k][i]))
+            src += f"Goal Rabs (vcoord {k} (geo_col p0 t0 j0 {i}) - {v}) <= {tol_p}. Proof. spot. Qed.\n"
+            w = C.rlit(C.frac(r["jac"][3 + k][i]))
+            src += (f"Goal Rabs (vcoord {k} (vscale (sgn p0 {i}) (mapp (rot (List.nth {i} (chain p0 j0) iid)) (local_axis {i}))) - {w}) <= {tol_r}. "
+                    "Proof. spot. Qed.\n")
+            n += 2
+    return src, n
+
+
+def correspondence(tier, seed, n=None):
+    res = _corr(tier, seed, n)
+    recs = C.run_harness(["C15", tier, seed + 3, 400])
+    cand = [r for r in recs if r.get("jac") and r.get("direct") is not None and max(abs(C.f64(h)) for h in r["q"]) < 7]
+    nspot = 12 if tier == "thorough" else 3
+    chosen = cand[:: max(1, len(cand) // nspot)][:nspot]
+    out = C.coq_spot("spot_c15", [spot_file(r) for r in chosen])
+    for (idx, fail), r in zip(out, chosen):
+        if fail:
+            res["disagreements"].append({"why": f"certified spot check failed (line {fail['line']}): the Jacobian the implementation built is not the geometric "
+                                                "column of the generated forward kinematics within eps * reach",
+                                         "record": {k: r[k] for k in ("case", "robot", "q", "eps", "jac")}, "log": fail["log"][-500:]})
+        else:
+            res["compared"] += 1
+    res["distribution"]["jacobian_spot_goals"] = 36 * len(chosen)
+    return res
